@@ -134,7 +134,17 @@ def r2(ck):
                 if callee_of(ft).get("path", "").endswith("Write::flush"):
                     f = errflow.fate_of(fn, ft["dest"]["l"])
                     ck.require(not (f.dropped or f.discarded), rule, "flush result in %s" % fn.id, "the result of flush() is dropped", fn.where(ft))
-    ck.floor(rule, "BufWriter constructions over file handles", n, 3)
+    # files written without a buffer need no flush (a failing write is the failing call itself, C18-R1); they count as output sinks too
+    direct = 0
+    for fn in prog.fns.values():
+        if fn.crate != "rapidquilt":
+            continue
+        for bb, t in fn.calls():
+            if not fn.blocks[bb]["cleanup"] and (callee_of(t).get("path") or "").endswith(("Write::write_all", "Write::write_fmt")) and \
+                    t["argtys"] and t["argtys"][0] in ("&mut std::fs::File", "&std::fs::File"):
+                direct += 1
+    ck.count("unbuffered writes to a File", direct)
+    ck.floor(rule, "file output sinks (BufWriter over a file handle, or unbuffered writes to a File)", n + direct, 3)
 
 
 def r3(ck):
